@@ -73,6 +73,9 @@ fn same_set(a: &[Permission], b: &[Permission]) -> bool {
 /// object than in a typed local (measured: `kql_permissions` on one BELIEF pattern
 /// 160 s of symbolic execution with `vec![..]`, 6 s with this buffer).
 fn borrowed_vec<T, const N: usize>(items: &ManuallyDrop<[T; N]>) -> Vec<T> {
+    if N == 0 {
+        return Vec::new();
+    }
     unsafe { Vec::from_raw_parts(items.as_ptr() as *mut T, N, N) }
 }
 
